@@ -68,6 +68,10 @@ fn inputs(repos: &[Repo]) -> Vec<Input> {
                 v.push(Input { args: vec![s(cmd), s("-C"), r.dir.display().to_string(), s("--output-format"), s(fmt)], stdin: None, inst: None, relative_c: None });
             }
         }
+        for ifmt in ["semver", "pep440"] {
+            v.push(Input { args: vec![s("version"), s("-C"), r.dir.display().to_string(), s("--input-format"), s(ifmt), s("--output-format"), s("zerv")], stdin: None, inst: None, relative_c: None });
+            v.push(Input { args: vec![s("version"), s("-C"), r.dir.display().to_string(), s("--input-format"), s(ifmt), s("--output-format"), s("pep440")], stdin: None, inst: None, relative_c: None });
+        }
         // and by a path relative to the parent directory
         let name = r.dir.file_name().unwrap().to_string_lossy().to_string();
         v.push(Input { args: vec![s("version"), s("-C"), name, s("--schema"), s("calver-context")], stdin: None, inst: None, relative_c: Some(r.dir.parent().unwrap().display().to_string()) });
@@ -97,6 +101,19 @@ pub fn record(args: &[String]) {
     let mut c = Repo::new(2);
     c.apply("tag", &to_cps("v0.1.0")).unwrap();
     repos.push(c);
+    // several tags of EQUAL precedence but different spelling on the tagged commit: which one is
+    // reported must not depend on the process (hash seeds, directory order, ...)
+    let mut d = Repo::new(0);
+    for (i, tag) in ["1.2", "1.2.0", "v1.2.0", "1.2.0.0", "1.2.0+a", "v1.2.0+b", "1.1.9"].iter().enumerate() {
+        d.apply(if i % 2 == 0 { "tag" } else { "atag" }, &to_cps(tag)).unwrap();
+    }
+    repos.push(d);
+    let mut e = Repo::new(0);
+    for tag in ["v1.0.0+a", "v1.0.0+b", "1.0.0", "v1.0.0", "1.0.0+c.1", "0.9.0"] {
+        e.apply("tag", &to_cps(tag)).unwrap();
+    }
+    e.apply("commit", &json!([])).unwrap();
+    repos.push(e);
     let ins = inputs(&repos);
     let other = std::env::temp_dir().join(format!("zv-cwd-{}", std::process::id()));
     std::fs::create_dir_all(&other).unwrap();
